@@ -356,6 +356,13 @@ LOOP:
 						c.run(ctx, job)
 					}(job)
 					c.resetTimer()
+				} else {
+					// The timer was set for a job that
+					// has been removed since.  Set it for
+					// the job that is first now, or that
+					// job (and all behind it) will wait
+					// for the next Add.
+					c.resetTimer()
 				}
 			}
 			c.Unlock()
